@@ -88,7 +88,11 @@ def decimal(value: bytes) -> typing.Tuple[int, _decimal.Decimal]:
     try:
         decimals = common.Struct.byte.unpack(value[0:1])[0]
         raw = common.Struct.long.unpack(value[1:5])[0]
-        return 5, _decimal.Decimal(raw) * (_decimal.Decimal(10)**-decimals)
+        # Built from its parts the value is exact, where Decimal arithmetic
+        # would round to the precision of (or trap in) the calling thread's
+        # decimal context.
+        digits = tuple(int(digit) for digit in str(abs(raw)))
+        return 5, _decimal.Decimal((int(raw < 0), digits, -decimals))
     except TypeError:
         raise ValueError('Could not unpack decimal value')
 
